@@ -11,7 +11,9 @@ mod c05;
 mod c06;
 mod c07;
 mod c08;
+mod c09;
 mod c10;
+mod c11;
 mod c12;
 mod c13;
 mod c14;
@@ -38,7 +40,9 @@ fn table(id: &str) -> Option<(GenFn, ExecFn)> {
         "C06" => Some((c06::gen, c06::exec)),
         "C07" => Some((c07::gen, c07::exec)),
         "C08" => Some((c08::gen, c08::exec)),
+        "C09" => Some((c09::gen, c09::exec)),
         "C10" => Some((c10::gen, c10::exec)),
+        "C11" => Some((c11::gen, c11::exec)),
         "C12" => Some((c12::gen, c12::exec)),
         "C13" => Some((c13::gen, c13::exec)),
         "C14" => Some((c14::gen, c14::exec)),
@@ -85,6 +89,19 @@ fn main() {
         }
         "exec" => {
             std::panic::set_hook(Box::new(|_| {}));
+            // The protocol goes to a private duplicate of fd 1 and fd 1 itself is pointed at /dev/null
+            // for the whole run: real code that prints to stdout (the roller's `println!` on a failed
+            // step, a console appender) can then neither corrupt the protocol nor block on a stdout lock
+            // held by this loop — from any thread.
+            drop(out);
+            let mut out = unsafe {
+                use std::os::unix::io::FromRawFd;
+                let proto = libc::dup(1);
+                let devnull = libc::open(b"/dev/null\0".as_ptr() as *const libc::c_char, libc::O_WRONLY);
+                libc::dup2(devnull, 1);
+                libc::close(devnull);
+                std::io::BufWriter::new(std::fs::File::from_raw_fd(proto))
+            };
             let stdin = std::io::stdin();
             for line in stdin.lock().lines() {
                 let line = line.unwrap();
@@ -96,6 +113,8 @@ fn main() {
                 };
                 writeln!(out, "{}", obs).unwrap();
             }
+            out.flush().unwrap();
+            return;
         }
         _ => {
             eprintln!("unknown command");
